@@ -204,10 +204,15 @@ func (x *Explorer) query(extra ...*Term) (SatResult, Model) {
 	for _, n := range names {
 		sb.WriteString("(assert " + n + ")\n")
 	}
-	x.S.Send(sb.String())
 	t0 := time.Now()
-	r := x.S.Check()
 	x.St.Queries++
+	if Params["cvc5first"] != 0 {
+		r, m := x.fallback(names)
+		x.St.QueryNs += int64(time.Since(t0))
+		return r, m
+	}
+	x.S.Send(sb.String())
+	r := x.S.Check()
 	var m Model
 	if r == Sat {
 		m = x.S.GetModel(x.P.Vars, x.P.UFApps)
